@@ -19,6 +19,8 @@ func init() { Registry["C19"] = checkC19 }
 func checkC19(c *Ctx) {
 	c.R.NotCover = append(c.R.NotCover, "actual timing: that activity at intervals < K never trips the deadline under scheduling delay", "that the operating system honours read deadlines")
 	c.useRules(ruleP5, ruleP9, ruleP8, ruleP2, ruleP6, ruleL2)
+	c.useRules(ruleP9)
+	c.readDeadlineOwners()
 	c.R.Rule("B8-deadline-factor", "the read deadline is f x keepAlive with 1 <= f <= 1.5, derived as a linear expression over the keep-alive value (recognised forms: X, X + X/k, X*a/b with X = time.Second * Duration(keepAlive)).")
 	r := c.Roles()
 	if !c.Need("receiver", r.Receiver, "accept", r.Accept, "handler", r.Handler, "ring writer", r.RingWrite, "teardown", r.Stop, "processor", r.Processor) {
